@@ -342,9 +342,9 @@ func cmdVerify(args []string) int {
 		}
 	}
 	sort.Slice(retry, func(i, j int) bool { return retry[i].Name < retry[j].Name })
-	maxRetry, attempts := 8, 2
+	maxRetry, attempts := 24, 2
 	if *tier == "thorough" {
-		maxRetry, attempts = 32, 3
+		maxRetry, attempts = 48, 3
 	}
 	if len(retry) > maxRetry {
 		retry = retry[:maxRetry]
